@@ -263,6 +263,35 @@ def run(ctx):
         decls.append({"default": "en", "locales": ["en"], "all_locales": ["en"], "namespaces": None, "inherits": {},
                       "files": {(None, "en"): proj.O(pairs)}, "extra_cfg": False, "meta": {}, "decl": {"refs": refs}})
     generic_pipeline_check(ctx, [], decls, decl_oracle, "C04-declarations")
+    # where a fallback may stand: alone, in the last branch only — also when it is one of several alternatives of a count list
+    fb = []
+    for ty in ("i32", "u8", "f64", None):
+        one = proj.U(1) if ty != "f64" else proj.F("1.0")
+        two = proj.U(2) if ty != "f64" else proj.F("2.0")
+        head = [ty] if ty else []
+        for bad, items in (
+                (True, [proj.A(["a", one, "_"]), proj.A(["b", two])]),
+                (True, [proj.O([("count", proj.A([one, ".."])), ("value", "a")]), proj.A(["b", two])]),
+                (True, [proj.A(["a", "_", one]), proj.A(["b", two]), proj.A(["c"])]),
+                (True, [proj.A(["a", "_"]), proj.A(["b", two])]),
+                (True, [proj.A(["a"]), proj.A(["b", two])]),
+                (False, [proj.A(["a", one]), proj.A(["b", two, "_"])]),
+                (False, [proj.A(["a", one]), proj.A(["b", "_"])]),
+                (False, [proj.A(["a", one]), proj.O([("count", proj.A([two, ".."])), ("value", "b")])]),
+                (False, [proj.A(["a", "1 | 2"]), proj.A(["b"])])):
+            fb.append({"default": "en", "locales": ["en"], "all_locales": ["en"], "namespaces": None, "inherits": {},
+                       "files": {(None, "en"): proj.O([("r", proj.A(head + items))])}, "extra_cfg": False, "meta": {}, "fallback_misplaced": bad})
+
+    def fb_oracle(ctx, p, o, i):
+        ctx.seen(project_text(p), nontrivial=True)
+        err = o["ci"].get("err")
+        if p["fallback_misplaced"] and err not in ("InvalidFallback", "MultipleFallbacks"):
+            report_violation(ctx, "ranges:misplaced-fallback-accepted", {"case": project_text(p), "implementation": o["impl"].get("result"),
+                                                                        "expected_by_spec": "error InvalidFallback: a fallback is only allowed in the last branch"})
+        # (a `_` that is one alternative of a count list does not make the branch the float types' mandatory fallback: MissingFallback there)
+        if not p["fallback_misplaced"] and "ok" not in o["ci"] and not (err == "MissingFallback" and '"f64"' in json.dumps(proj.file_list(p))):
+            report_violation(ctx, "ranges:fallback-in-last-branch-rejected", {"case": project_text(p), "implementation": o["impl"].get("result")})
+    generic_pipeline_check(ctx, [], fb, fb_oracle, "C04-fallback-position")
     # what the *generated* `match count { .. }` / if-chains render at run time: counts on and next to every bound of the declared branches
     probe.run_render_probe(ctx, rng, n_crates=ctx.budget(1, 3), flavours=("string", "view"), sig_prefix="ranges", per_key=6,
                            opts={"range_heavy": True, "formatted_keys": False, "ordinal_key": False})
